@@ -206,7 +206,7 @@ CLAIMS = {
              "receives its FD.TP.DT segments and finally the end-of-message status through notify() -> originator receives CTS / "
              "acknowledgement through notify()) under ANY schedule that finds the record due, any two window limits: after at most n+1 "
              "rounds delivered exactly once byte-identical, one acknowledgement reported, no record on either side, number i returned to "
-             "the RTS/CTS pool (invariant over windows, induction on the segments left; originator without minimum packet interval).  "
+             "the RTS/CTS pool (invariant over windows, induction on the segments left; with or without a minimum packet interval at the originator).  "
              "Partial: timeouts/loss are C06's, pre-emption C08's; the interleaving of concurrent sessions on 2-3 stacks is established by "
              "the lock-step correspondence (nominal, hostile, lossy scripts with table dumps) and the network oracle, not by one theorem.",
         note="Proved/validated for the code as repaired by fix commits D5+D3, D22, D2, D24, D4, D23b (known_findings.json). Trusted: Lean kernel; "
